@@ -2,8 +2,8 @@
    This file holds only statements closed by [exact] and their Print Assumptions.
    Token level (Model/WktM.v, first half): a text is its keyword, Z/M marker and nested lists of
    coordinate tuples; numbers are opaque values ASSUMED to print in the class the grammar
-   lexes as one number and float() reads back exactly (plain decimals with at most three
-   integer digits, or exponent form) — see C13_z_four_digits_refuted for what happens outside.
+   lexes as one number and float() reads back exactly (what str(float) emits: plain decimals or
+   exponent form; after repair D33 with any number of integer digits).
    Character level (second half of WktM.v): executable, tied to /repo by the correspondence
    (every single-character corruption of valid texts) and by the translator (the regexes). *)
 From Coq Require Import String Ascii.
@@ -107,12 +107,13 @@ Theorem C13_malformed_ValueError_refuted :
 Proof. exact digit_run_split_refuted. Qed.
 Print Assumptions C13_malformed_ValueError_refuted.
 
-(* a Z of 1500.5 written by the library is read back as 1500.0 (character level, units of 0.1) *)
-Theorem C13_z_four_digits_refuted :
-  from_wkt_chars TPoint (chars "POINT(1.0 2.0 1500.5)") =
-  inr (Ok (GPoint (mkc 10 20 (Some 15000)), -1)).
-Proof. exact z_four_digits_refuted. Qed.
-Print Assumptions C13_z_four_digits_refuted.
+(* regression for repair D33: Z values of 1000 and above are read back exactly (character level) *)
+Theorem C13_z_four_digits_read_exactly :
+  from_wkt_chars TPoint (chars "POINT(1.0 2.0 1500.5)") = inr (Ok (GPoint (mkc 10 20 (Some 15005)), -1)) /\
+  from_wkt_chars TMPoint (chars "MULTIPOINT(6.5 0.1 12345.678, 1.0 0.5)") =
+  inr (Ok (GMPoint [mkc 6500 100 (Some 12345678); mkc 1000 500 None], -3)).
+Proof. exact z_four_digits_read_exactly. Qed.
+Print Assumptions C13_z_four_digits_read_exactly.
 
 Theorem C13_char_level_examples :
   from_wkt_chars TPoint (chars "POINT(1.0 2.0 150.5)") = inr (Ok (GPoint (mkc 10 20 (Some 1505)), -1)) /\
